@@ -13,8 +13,9 @@ import (
 )
 
 const (
-	knownPhantom   = "torn-insert-phantom-id0"
-	knownCollision = "torn-header-id-collision"
+	knownPhantom       = "torn-insert-phantom-id0"
+	knownCollision     = "torn-header-id-collision"    // insert fragments only
+	knownTombCollision = "torn-tombstone-id-collision" // tombstone fragments
 )
 
 // reproPhantom: n series are created and acknowledged; the next insert append is torn after its
@@ -185,15 +186,17 @@ func reproCollision(flag byte) (detail string, reproduced bool, err error) {
 }
 
 func TestKnown_torn_header_id_collision(t *testing.T) {
-	var details []string
-	for _, flag := range []byte{tsdb.SeriesEntryInsertFlag, tsdb.SeriesEntryTombstoneFlag} {
-		d, ok, err := reproCollision(flag)
-		if err != nil {
-			t.Fatalf("harness: %v", err)
-		}
-		if ok {
-			details = append(details, d)
-		}
+	d, ok, err := reproCollision(tsdb.SeriesEntryInsertFlag)
+	if err != nil {
+		t.Fatalf("harness: %v", err)
 	}
-	rec.Known(t, "TestKnown_torn_header_id_collision", knownCollision, len(details) > 0, fmt.Sprint(details), map[string]any{"details": details})
+	rec.Known(t, "TestKnown_torn_header_id_collision", knownCollision, ok, d, map[string]any{"detail": d})
+}
+
+func TestKnown_torn_tombstone_id_collision(t *testing.T) {
+	d, ok, err := reproCollision(tsdb.SeriesEntryTombstoneFlag)
+	if err != nil {
+		t.Fatalf("harness: %v", err)
+	}
+	rec.Known(t, "TestKnown_torn_tombstone_id_collision", knownTombCollision, ok, d, map[string]any{"detail": d})
 }
